@@ -513,9 +513,10 @@ def run(rep, tier, seed, only=None):
     rep.assume(
         "A-det: the numerical libraries (numpy, scipy quad, eko, LeProHQ) are deterministic functions of their inputs -- bit-for-bit equality then follows from value equality of the inputs of each computation",
         "history independence is the induction over public operations described in DESIGN C14; the machine-checked part is that every memo table's key determines the inputs of the cached computation and that each operation returns what a fresh computation would",
+        "the operators cached by the scale-variation manager are functions of their key only if convolve_operator writes every entry it returns: its contract (C01) is re-discharged here with an allocator model in which uninitialised memory (np.empty) holds a poison value",
         "dict lookups hash their keys: key collisions cannot be explored symbolically, so key *construction* is checked symbolically (components by name) and lookup on concrete histories",
     )
-    for nm, f in (("sf_cache", sec_sf_cache), ("esf", sec_esf_memo), ("other", sec_other_caches), ("shared", sec_shared_state), ("runner", sec_runner), ("frame", sec_frame), ("weightsframe", H.weights_frame), ("svframe", lambda r: [__import__("contracts.c05", fromlist=["x"]).switch_worker(r, it) for it in ((2, 5, "intrinsic"), (1, 3, "intrinsic"), (3, 4, "intrinsic"))]), ("computeraw", lambda r: __import__("contracts.c05", fromlist=["x"]).sec_compute_raw(r)), ("bounded", lambda r: sec_bounded_end_to_end(r, tier))):
+    for nm, f in (("sf_cache", sec_sf_cache), ("esf", sec_esf_memo), ("other", sec_other_caches), ("shared", sec_shared_state), ("runner", sec_runner), ("frame", sec_frame), ("weightsframe", H.weights_frame), ("svframe", lambda r: [__import__("contracts.c05", fromlist=["x"]).switch_worker(r, it) for it in ((2, 5, "intrinsic"), (1, 3, "intrinsic"), (3, 4, "intrinsic"))]), ("computeraw", lambda r: __import__("contracts.c05", fromlist=["x"]).sec_compute_raw(r)), ("convolveoperator", lambda r: __import__("contracts.c01", fromlist=["x"]).sec_convolve_vector(r)), ("bounded", lambda r: sec_bounded_end_to_end(r, tier))):
         if only and only not in nm:
             continue
         rep.add(guarded(f"C14/{nm}", lambda f=f: (f(rep), [])[1]))
